@@ -18,16 +18,65 @@ def float_in_domain(bits):
     return (Fraction(f) * 10 ** 6).denominator == 1
 
 
-def value_order_classes(rows, keys):
-    """which known string-order defects can explain a table whose ORDER BY output is not in value order"""
+def cell_sort_key(c, tolerant):
+    """(fine kind, comparable python value): the VALUE order of the spec; tolerant = float64 reduced to six decimals"""
+    k = c["k"]
+    if k == "l":
+        t = c["t"]
+        if t == "int64":
+            return ("l:int64", int(c["v"]))
+        if t == "float64":
+            f = T.float_of_bits(c["v"])
+            if f != f:
+                return ("l:float64", None)
+            return ("l:float64", T.float_key6(c["v"]) if tolerant and f not in (float("inf"), float("-inf")) else Fraction(f) if f not in (float("inf"), float("-inf")) else f)
+        if t == "text":
+            return ("l:text", bytes.fromhex(c.get("v", "")))
+        return ("l:" + t, bytes.fromhex(c.get("str", "")))
+    if k == "t":
+        return ("t", int(c["ns"]))
+    if k == "null":
+        return ("null", 0)
+    return (k, bytes.fromhex(c.get("s", "")))
+
+
+def tolerant_first_rows(base, out, cfg):
+    """is [out] the first len(out) rows of SOME ordering of [base] by the keys when float64 values are reduced to six decimals?"""
+    def cmp(a, b):
+        for k in cfg:
+            ka, kb = cell_sort_key(a[k["b"]], True), cell_sort_key(b[k["b"]], True)
+            if ka[0] != kb[0] or ka[1] is None or kb[1] is None:
+                return None
+            if ka[1] != kb[1]:
+                lt = ka[1] < kb[1]
+                return -1 if lt != k["desc"] else 1
+        return 0
+    try:
+        for a, b in zip(out, out[1:]):
+            if cmp(a, b) not in (-1, 0):
+                return False
+        rest = list(base)
+        for r in out:
+            rest.remove(r)
+        return all(cmp(d, o) in (0, 1) for d in rest for o in out[-1:])
+    except (KeyError, ValueError):
+        return False
+
+
+def value_order_classes(rows, keys, out=None, cfg=None):
+    """which known string-order defects can explain a table whose ORDER BY output is not in value order (narrow: each class
+    names the feature of the key column that the defect needs)"""
     cl = set()
     for k in keys:
         cells = [r[k] for r in rows if k in r]
         lits = [c for c in cells if c["k"] == "l"]
         if any(c["t"] == "int64" and int(c["v"]) < 0 for c in lits):
             cl.add("negative_int_order")
-        if any(c["t"] == "float64" and not float_in_domain(c["v"]) for c in lits):
-            cl.add("float_format_order")
+        fl = [T.float_of_bits(c["v"]) for c in lits if c["t"] == "float64"]
+        if any(f < 0 for f in fl):
+            cl.add("float_negative_order")
+        if any(f >= 1e25 or f != f for f in fl):
+            cl.add("float_width_order")
         if any(c["t"] == "text" and any(b <= 0x22 for b in bytes.fromhex(c.get("v", ""))) for c in lits):
             cl.add("text_quote_order")
         times = [c for c in cells if c["k"] == "t"]
@@ -40,6 +89,9 @@ def value_order_classes(rows, keys):
                 s = bytes.fromhex(c.get("s", ""))
                 if s != s.strip(b" \t\n\v\f\r"):
                     cl.add("string_trimspace_order")
+    # precision beyond the sixth decimal: excused only if the output IS in order once float64 values are reduced to six decimals
+    if out is not None and cfg and tolerant_first_rows(rows, out, cfg):
+        cl.add("float_precision_order")
     return cl
 
 
@@ -154,7 +206,7 @@ def run(ctx):
         elif v == 3:
             ctx.violation({"kind": "formatted string differs from the Gallina formatter", "case": c})
         elif v == 4:
-            excuse(c, value_order_classes(c["in"], [k["b"] for k in c["cfg"]]), "ORDER BY output not in value order")
+            excuse(c, value_order_classes(c["in"], [k["b"] for k in c["cfg"]], c["out"], c["cfg"]), "ORDER BY output not in value order")
     mark("sort")
     # ---- Table.Limit
     limits = T.htable(["-mode", "limit", "-n", 60 * mult, "-seed", seed])
@@ -197,7 +249,8 @@ def run(ctx):
         elif v == 3:
             ctx.violation({"kind": "formatted string differs from the Gallina formatter", "case": c})
         elif v in (4, 5, 6):
-            cl = value_order_classes(c["base"].get("rows") or [], [k["b"] for k in c.get("cfg") or []]) if v != 6 else set()
+            cl = value_order_classes(c["base"].get("rows") or [], [k["b"] for k in c.get("cfg") or []],
+                                     c["res"].get("rows") or [], c.get("cfg")) if v != 6 else set()
             if v in (5, 6) and pushdown_applies(c):
                 cl = {"limit_pushdown"}
             if has_dup_keys(c.get("cfg")) and [k["b"] for k in c.get("cfg_seen") or []] != \
@@ -214,6 +267,9 @@ def run(ctx):
         if c["base"]["outcome"] != "ok" or v != 0:
             ctx.violation({"kind": "GROUP BY + ORDER BY + HAVING + LIMIT through the planner disagrees with Exec.execute_tail", "case": c})
     mark("tail")
+    # ---- every literal / anchor cell is rendered as the reference formatting of its value (catches changes of the formatting code)
+    ctx.cov["cells_rendering_checked"] = T.check_renderings(
+        ctx, [c["in"] for c in sorts] + [c["base"].get("rows") for c in e2e] + [c["res"].get("rows") for c in e2e], "C12")
     # ---- size sweep of Table.Sort / Table.Limit (row counts around powers of two and typical thresholds)
     sweep = T.htable(["-mode", "sweep", "-n", 2 if ctx.tier == "thorough" else 1, "-seed", seed], timeout=1800)
     ctx.cov["size_sweep"] = T.check_sweep(ctx, sweep, ("sort", "limit"))
